@@ -45,6 +45,7 @@ from math import nan
 
 import asyncfix
 from asyncfix import FIXMessage, FMsg
+from asyncfix.errors import FIXError
 from asyncfix.protocol.common import FExecType, FOrdSide, FOrdStatus
 from asyncfix.protocol.order_single import FIXNewOrderSingle
 
@@ -414,6 +415,7 @@ def make_config(seed, tier="quick", half="c17"):
     if rt.random() < 0.08:
         price = rt.choice([1.234e-05, 2.5e-07, 5e-05, 9.87654321e-06, 1e-10])  # (huge magnitudes would absorb the harness's own price + 1.0 replace step)
     direct_requests = rt.random() < 0.3
+    noop_replaces = rt.random() < 0.25
     weights = {}
     for k in ACTION_KINDS:
         mult = r.choice([0.0, 0.3, 1.0, 1.0, 1.0, 3.0])
@@ -445,6 +447,7 @@ def make_config(seed, tier="quick", half="c17"):
         # oracle validates again, independently of the helper's own call, in these runs
         revalidate=(tier == "thorough") or r.random() < 0.125,
         direct_requests=direct_requests,
+        noop_replaces=noop_replaces,
     )
     return cfg
 
@@ -825,6 +828,37 @@ class OrderMachine(_MachineBase):
         self.send("replace", m)
         return ["replace", pmode, qmode]
 
+    def a_noop_replace(self, act):
+        """The application asks for a replace that changes nothing: documented FIXError, nothing is sent - and the
+        order object is exactly what it was (in particular its ClOrdID chain)."""
+        if not self.new_sent or not self.cr or not self.client_may_request("replace"):
+            return None
+        o = self.order
+        how = act[1] if len(act) > 1 and act[1] in ("same", "nan") else "same"
+        before = (o.clord_id, o.orig_clord_id, o.status, o.price, o.qty, o.cum_qty, o.leaves_qty)
+        try:
+            if how == "nan":
+                m = o.replace_req()
+            else:
+                m = o.replace_req(o.price, o.qty)
+        except FIXError:
+            m = None
+        except Exception as e:
+            self.violate([("request-builds", f"C17/no-change-replace-raises/{type(e).__name__}/{self.after_req()}",
+                           f"replace_req() without a change raised {e!r}, not the documented FIXError")])
+            return ["noop_replace", how]
+        self.probes["no_change_replace_attempted"] += 1
+        after = (o.clord_id, o.orig_clord_id, o.status, o.price, o.qty, o.cum_qty, o.leaves_qty)
+        if m is not None:
+            self.violate([("request-builds", f"C17/no-change-replace-built-a-request/{self.after_req()}",
+                           f"replace_req() without any change built {msg_text(m)}")])
+        elif after != before:
+            names = ("clord_id", "orig_clord_id", "status", "price", "qty", "cum_qty", "leaves_qty")
+            diff = [f"{n}: {b!r} -> {a!r}" for n, b, a in zip(names, before, after) if a != b]
+            self.violate([("refused-request-is-neutral", f"C17/refused-replace-changed-the-order/{diff[0].split(':')[0]}/{self.after_req()}",
+                           f"replace_req() refused the request (no change) but the order object changed: {diff}")])
+        return ["noop_replace", how]
+
     def a_handle(self, act):
         if not self.c2e or self.ex.held is not None:
             return None
@@ -972,6 +1006,8 @@ class OrderMachine(_MachineBase):
                 ks.append("cancel")
             if self.cr and self.client_may_request("replace"):
                 ks.append("replace")
+                if self.cfg.get("noop_replaces"):
+                    ks.append("noop_replace")
         if self.c2e and ex.held is None:
             ks.append("handle")
         if ex.held is not None:
@@ -997,6 +1033,8 @@ class OrderMachine(_MachineBase):
         c = self.cfg
         if k == "replace":
             return [k, r.choice(PMODES), r.choice(QMODES)]
+        if k == "noop_replace":
+            return [k, r.choice(("same", "same", "nan"))]
         if k == "handle":
             pend = int(r.random() < c["p_pend"])
             if self.c2e[0]["kind"] == "new":
@@ -1394,6 +1432,39 @@ class C20aMachine(_MachineBase):
         self.deliver_specs(ex.bust(et, k), bits)
         return ["bust", et, k, bits]
 
+    def a_odd_reject(self, act):
+        """While a request is held: the helper is asked for a cancel reject with an OrdStatus the order's state
+        machine does not act upon (the helper accepts every OrdStatus).  The order ignores it - whatever the
+        exchange answers afterwards under the request's ClOrdID must still be processed without error."""
+        if self.ex.held is None or self.cur_req is None:
+            return None
+        st = act[1] if len(act) > 1 and act[1] in ("D", "B", "7", "3") else "D"
+        import copy
+
+        try:
+            m = self.ft.fix_cxlrep_reject_msg(self.cur_req, FOrdStatus(st))
+        except AssertionError as e:
+            if _raised_in_helper(e):
+                self.probes["helper_refused_arguments"] += 1
+                return ["odd_reject", st]
+            raise
+        probe = copy.deepcopy(self.order)
+        try:
+            acted = probe.process_cancel_rej_report(m)
+        except Exception:
+            acted = None
+        if acted is not False:
+            return ["odd_reject", st]  # the state machine acts on this status: the regular reject path covers that
+        self.note_msg("E>C ", m)
+        self.log.append(("helper fabricates", "ignored-reject", msg_text(m)))
+        try:
+            self.order.process_cancel_rej_report(m)
+        except Exception as e:
+            self.violate([("order-accepts-helper-reports", f"C20/helper-report-breaks-order/{type(e).__name__}/msg=ignored-reject/{self.after()}",
+                           f"order refused the helper's cancel reject with OrdStatus={st} [{msg_text(m)}]: {e!r}")])
+        self.probes["cancel_reject_with_status_the_order_ignores"] += 1
+        return ["odd_reject", st]
+
     def a_status(self, act):
         if self.ex.phase is None or self.ex.held is not None or not self.new_sent:
             return None
@@ -1427,6 +1498,8 @@ class C20aMachine(_MachineBase):
                 ks.append("replace")
         else:
             ks.append("resolve")
+            if self.cur_req is not None:
+                ks.append("odd_reject")
         if self.ex.phase == "L":
             for ev in ("fill", "expire", "suspend", "resume", "unsol_cancel", "late_reject"):
                 if self.exchange_may(ev):
@@ -1468,6 +1541,8 @@ class C20aMachine(_MachineBase):
             return [k, self.choose_fill(), bits]
         if k == "bust":
             return [k, r.choice(("H", "H", "G", "D")), r.randint(1, 8), bits]
+        if k == "odd_reject":
+            return [k, r.choice(("D", "D", "B", "7", "3"))]
         return [k, bits]
 
     def run(self, want_sample=False):
